@@ -609,6 +609,9 @@ fn iter_part(tier: Tier, shard: Shard, stats: &mut Stats, case: &mut u64) {
         for f in 0..5usize {
             // (with and without a length: finishing moves the position to the length only if there is one)
             for blen in [Some(10u64), None] {
+            // (the caller keeps a handle of its own, or the adaptor is the only owner and the bar is read
+            // through a weak handle upgraded for the reading only)
+            for keep in [true, false] {
             for seq in &ops {
                 *case += 1;
                 if !shard.owns(*case) {
@@ -616,13 +619,19 @@ fn iter_part(tier: Tier, shard: Shard, stats: &mut Stats, case: &mut u64) {
                 }
                 stats.evaluations += 1;
                 stats.transitions += seq.len() as u64;
-                let hist = vec!["Iterator".to_string(), format!("inner yields {:?} (front and back)", shape), format!("on_finish {}", FINS[f]), format!("calls {:?}", seq), format!("bar length {:?}", blen)];
+                let hist = vec!["Iterator".to_string(), format!("inner yields {:?} (front and back)", shape), format!("on_finish {}", FINS[f]), format!("calls {:?}", seq), format!("bar length {:?}", blen), format!("caller keeps a handle: {keep}")];
                 let r = catch(|| -> Result<(u64, bool), (String, String)> {
                     clock::reset();
                     let mk = || ScriptIter { front: shape.clone(), i: 0, back: shape.clone(), j: 0 };
                     let mut bare = mk();
                     let pb = ProgressBar::with_draw_target(blen, ProgressDrawTarget::hidden()).with_finish(fin(f)).with_message("msg");
-                    let mut wrapped = mk().progress_with(pb.clone());
+                    let weak = pb.downgrade();
+                    let mut wrapped = if keep { mk().progress_with(pb.clone()) } else { mk().progress_with(pb.clone()) };
+                    if !keep {
+                        drop(pb);
+                    }
+                    let pb = ();
+                    let _ = pb;
                     let mut yielded = 0u64;
                     let mut finished = false;
                     let mut model_pos = 0u64;
@@ -678,6 +687,12 @@ fn iter_part(tier: Tier, shard: Shard, stats: &mut Stats, case: &mut u64) {
                                 }
                             }
                         }
+                        // (after a fold the adaptor is gone, and with it a bar nobody else holds)
+                        let Some(h) = weak.upgrade() else {
+                            out.push(r2);
+                            continue;
+                        };
+                        let pb = &h;
                         let p = pb.position();
                         if p != model_pos {
                             let class = if finished { "finish/count: position after exhaustion is not the one defined by the finish behaviour plus later items" } else { "count: position did not advance by exactly the items handed over" };
@@ -702,8 +717,9 @@ fn iter_part(tier: Tier, shard: Shard, stats: &mut Stats, case: &mut u64) {
                 match r {
                     Err(p) => stats.violation(Violation { class: format!("panic: {}", panic_class(&p)), config: "Iterator".into(), history: hist, detail: p }),
                     Ok(Err((class, detail))) => stats.violation(Violation { class: format!("Iterator: {class}"), config: "Iterator".into(), history: hist, detail }),
-                    Ok(Ok((h, nt))) => stats.state_outcome(hash_of(&(h, blen)), nt),
+                    Ok(Ok((h, nt))) => stats.state_outcome(hash_of(&(h, blen, keep)), nt),
                 }
+            }
             }
             }
         }
